@@ -462,11 +462,21 @@ def transport_predicates(run, rid="R4"):
             for val in completions({k: b for k, b in lf.pc.items() if not k.startswith("?")}, spec["atoms"], spec.get("feasible")):
                 n += 1
                 want = spec["fn"](val)
-                if isinstance(v, ast.Constant):
-                    got = bool(v.value)
-                else:
-                    ra = atoms_of(v, ex)
-                    got = (val.get(ra[0]) == ra[1]) if ra is not None and ra[0] in val else None
+                def bev(e_):
+                    # a verdict written as a boolean expression over the signals
+                    if isinstance(e_, ast.Constant):
+                        return bool(e_.value)
+                    if isinstance(e_, ast.UnaryOp) and isinstance(e_.op, ast.Not):
+                        x_ = bev(e_.operand)
+                        return None if x_ is None else not x_
+                    if isinstance(e_, ast.BoolOp):
+                        xs_ = [bev(x_) for x_ in e_.values]
+                        if isinstance(e_.op, ast.And):
+                            return False if any(x_ is False for x_ in xs_) else (None if any(x_ is None for x_ in xs_) else True)
+                        return True if any(x_ is True for x_ in xs_) else (None if any(x_ is None for x_ in xs_) else False)
+                    ra = atoms_of(e_, ex)
+                    return (val.get(ra[0]) == ra[1]) if ra is not None and ra[0] in val else None
+                got = bev(v)
                 desc = ", ".join(f"{a}={'T' if val[a] else 'F'}" for a in spec["atoms"])
                 run.check(rid, got == want and not (got and unk), f"{label}[{desc}] = {want}", key=f"{fn.qualname}|table|{desc}", where=fn.loc(lf.node.ast),
                           message=f"{fn.qualname}, case [{desc}]{' under the extra condition ' + str(unk) if unk else ''}: returns {got}, the transport library's "
